@@ -57,6 +57,9 @@ Proof. intros H. inv2_parts H. unfold inv2, reset_errors; cbn. repeat split; try
 Lemma reset_current s : current s -> current (reset_errors s).
 Proof. intros H. exact H. Qed.
 
+Lemma not_ready_inv2 s : inv2 s -> inv2 (not_ready s).
+Proof. intros H. inv2_parts H. unfold inv2, not_ready; cbn. repeat split; try assumption; try discriminate. Qed.
+
 (** a full synchronisation that succeeds - from whatever state it was entered,
     up included - stores the complete object set of the running instance *)
 Lemma init_all_inv2 c modes s :
@@ -68,6 +71,7 @@ Proof.
   pose proof (do_query_inv2 c modes (set_last_update (now s) s) H) as H1.
   destruct (do_query c modes (set_last_update (now s) s)) as [s1 ok].
   destruct ok; cbn [fst snd]; [|split; [exact H1|discriminate]].
+  destruct (env_ready s1); cbn [fst snd]; [|split; [apply not_ready_inv2; exact H1|discriminate]].
   inv2_parts H1. unfold inv2, current, reset_errors, store_data, mark_syncing.
   destruct (status s1); cbn; repeat split; intros; try assumption; try discriminate; try lia.
 Qed.
@@ -81,6 +85,7 @@ Proof.
   pose proof (do_query_inv2 c modes s H) as H1.
   destruct (do_query c modes s) as [s1 ok].
   destruct ok; cbn [fst snd]; [|split; [exact H1|discriminate]].
+  destruct (negb (env_ready s1)); cbn [fst snd]; [split; [exact H1|discriminate]|].
   destruct (Nat.eqb (core_seen s1) (env_core s1)) eqn:He; cbn [negb fst snd]; [|split; [exact H1|discriminate]].
   apply Nat.eqb_eq in He.
   destruct (c_fixed c && negb (has_data s1)); cbn [fst snd]; [split; [exact H1|discriminate]|].
@@ -158,6 +163,7 @@ Proof.
   - apply pass_inv2; exact H.
   - apply client_query_inv2; exact H.
   - apply restart_inv2; exact H.
+  - exact H.
 Qed.
 
 Lemma run_inv2 c modes evs : inv2 (snd (run c modes evs)).
@@ -171,19 +177,21 @@ Qed.
 
 (** *** the environment is only changed by the environment *)
 
-Definition env_same (s s' : st) : Prop := env_core s' = env_core s /\ env_dset s' = env_dset s.
+Definition env_same (s s' : st) : Prop :=
+  env_core s' = env_core s /\ env_dset s' = env_dset s /\ env_ready s' = env_ready s.
 
 Lemma frame_env s s' : frame s s' -> env_same s s'.
-Proof. unfold frame, env_same. intros H. decompose [and] H. split; assumption. Qed.
+Proof. unfold frame, env_same. intros H. decompose [and] H. repeat split; assumption. Qed.
 
 Lemma env_same_trans a b c' : env_same a b -> env_same b c' -> env_same a c'.
-Proof. unfold env_same. intros [A B] [C D]. split; congruence. Qed.
+Proof. unfold env_same. intros (A & B & E) (C & D & F). repeat split; congruence. Qed.
 
 Lemma init_all_env c modes s : env_same s (fst (init_all c modes s)).
 Proof.
   unfold init_all. pose proof (frame_env _ _ (do_query_frame c modes (set_last_update (now s) s))) as H1.
   destruct (do_query c modes (set_last_update (now s) s)) as [s1 ok]. cbn [fst] in H1.
   destruct ok; cbn [fst]; [|exact H1].
+  destruct (env_ready s1) eqn:Hr; cbn [fst]; [|exact H1].
   unfold env_same in *. unfold reset_errors, store_data, mark_syncing. destruct (status s1); cbn; exact H1.
 Qed.
 
@@ -192,19 +200,20 @@ Proof.
   unfold update_delta. pose proof (frame_env _ _ (do_query_frame c modes s)) as H1.
   destruct (do_query c modes s) as [s1 ok]. cbn [fst] in H1.
   destruct ok; cbn [fst]; [|exact H1].
+  destruct (negb (env_ready s1)); [exact H1|].
   destruct (negb (Nat.eqb (core_seen s1) (env_core s1))); [exact H1|].
   destruct (c_fixed c && negb (has_data s1)); exact H1.
 Qed.
 
 Lemma after_update_env c modes r : env_same (fst r) (after_update c modes r).
 Proof.
-  unfold after_update. destruct (snd r); try (split; reflexivity). apply init_all_env.
+  unfold after_update. destruct (snd r); try (repeat split; reflexivity). apply init_all_env.
 Qed.
 
 Lemma periodic_env c modes m s : env_same s (periodic c modes m s).
 Proof.
   unfold periodic.
-  assert (H0 : env_same s (update_idle c s)) by (unfold update_idle; destruct (_ && _); split; reflexivity).
+  assert (H0 : env_same s (update_idle c s)) by (unfold update_idle; destruct (_ && _); repeat split; reflexivity).
   set (s1 := update_idle c s) in *.
   assert (Hlu : forall x, env_same s x -> env_same s (set_last_update (now x) x)) by (intros x Hx; exact Hx).
   destruct (negb (idling s1) && m && has_data s).
@@ -229,22 +238,26 @@ Qed.
     re-synchronisation that updateLoop runs at once *)
 Lemma contact_synced c modes s :
   (0 < c_nsrc c)%nat -> (0 <= c_stale c)%Z -> c_fixed c = true -> inv c s -> inv2 s ->
+  env_ready s = true ->
   snd (do_query c modes s) = true ->
   let s' := after_update c modes (update_delta c modes s) in
   synced s' /\ current s'.
 Proof.
-  intros Hn Hs Hf Hi Hi2 Hok. cbn zeta. unfold after_update.
+  intros Hn Hs Hf Hi Hi2 Hrd Hok. cbn zeta. unfold after_update.
   destruct (update_delta_inv c modes s Hs Hf Hi) as [_ Hsy].
   destruct (update_delta_inv2 c modes s Hi2) as [_ Hcu].
   unfold update_delta in *. pose proof (do_query_ok_addr c modes s Hok) as Haddr.
   pose proof (do_query_inv c modes s Hi) as Hi3. pose proof (do_query_inv2 c modes s Hi2) as Hi4.
+  pose proof (frame_env _ _ (do_query_frame c modes s)) as (_ & _ & Hfr).
   destruct (do_query c modes s) as [s3 ok] eqn:Hq. cbn [fst snd] in *. subst ok.
+  assert (Hrd3 : env_ready s3 = true) by congruence.
   assert (Hre : synced (fst (init_all c modes s3)) /\ current (fst (init_all c modes s3))).
   { assert (Hin : snd (init_all c modes s3) = true).
-    { apply init_all_recovers.
+    { apply init_all_recovers; [exact Hrd3|].
       assert (Hm : mode_of modes (addr (set_last_update (now s3) s3)) = MOk) by exact Haddr.
       rewrite (do_query_ok_again c modes _ Hn Hm). reflexivity. }
     split; [apply init_all_inv; assumption|apply init_all_inv2; assumption]. }
+  rewrite Hrd3 in *. cbn [negb] in *.
   destruct (negb (Nat.eqb (core_seen s3) (env_core s3))); cbn [fst snd] in *; [exact Hre|].
   rewrite Hf in *. cbn [andb] in *. destruct (has_data s3) eqn:Hd; cbn [negb fst snd] in *.
   - split; [apply Hsy; reflexivity|apply Hcu; reflexivity].
@@ -253,20 +266,22 @@ Qed.
 
 Lemma periodic_recovery_current c modes s :
   (0 < c_nsrc c)%nat -> (0 <= c_stale c)%Z -> c_fixed c = true -> inv c s -> inv2 s ->
+  env_ready s = true ->
   let s1 := update_idle c s in
   (last_update s + (if idling s1 then c_idle_int c else c_upd c) <= now s)%Z ->
   snd (do_query c modes (set_last_update (now s) s1)) = true ->
   current (periodic c modes false s).
 Proof.
-  intros Hn Hs Hf Hi Hi2 s1 Hdue Hok. unfold periodic. fold s1.
+  intros Hn Hs Hf Hi Hi2 Hrd s1 Hdue Hok. unfold periodic. fold s1.
   rewrite andb_false_r. cbn [andb negb].
   assert (Hnow : now s1 = now s) by (unfold s1, update_idle; destruct (_ && _); reflexivity).
   rewrite Hnow. destruct (now s <? last_update s + _)%Z eqn:Hlt; [apply Z.ltb_lt in Hlt; lia|].
   set (s2 := set_last_update (now s) s1) in *.
   assert (Hi3 : inv c s2) by (apply update_idle_inv; exact Hi).
   assert (Hi4 : inv2 s2) by (apply update_idle_inv2; exact Hi2).
+  assert (Hrd2 : env_ready s2 = true) by (unfold s2, s1, update_idle; destruct (_ && _); exact Hrd).
   assert (Hinit : current (fst (init_all c modes s2))).
-  { apply init_all_inv2; [assumption|]. apply init_all_recovers.
+  { apply init_all_inv2; [assumption|]. apply init_all_recovers; [exact Hrd2|].
     replace (set_last_update (now s2) s2) with s2; [exact Hok|]. unfold s2, set_last_update; cbn. rewrite Hnow. reflexivity. }
   assert (Hdelta : current (after_update c modes (update_delta c modes s2))).
   { apply (contact_synced c modes s2); assumption. }
@@ -312,7 +327,7 @@ Lemma thm_successful_contact c modes evs :
      synced (fst (init_all c modes' s)) /\ current (fst (init_all c modes' s))) /\
   (snd (update_delta c modes' s) = UOk ->
      synced (fst (update_delta c modes' s)) /\ current (fst (update_delta c modes' s))) /\
-  (snd (do_query c modes' s) = true ->
+  (env_ready s = true -> snd (do_query c modes' s) = true ->
      synced (after_update c modes' (update_delta c modes' s)) /\
      current (after_update c modes' (update_delta c modes' s))).
 Proof.
@@ -322,7 +337,7 @@ Proof.
   split; [|split].
   - intros Hok. split; [apply init_all_inv; assumption|apply init_all_inv2; assumption].
   - intros Hok. split; [apply update_delta_inv; assumption|apply update_delta_inv2; assumption].
-  - intros Hok. apply contact_synced; assumption.
+  - intros Hrd Hok. apply contact_synced; assumption.
 Qed.
 
 Lemma synced_observed s : synced s -> current s ->
@@ -339,18 +354,19 @@ Lemma thm_recovery_is_current c modes evs :
   let s := snd (run c modes evs) in
   let modes' := fst (run c modes evs) in
   let s1 := update_idle c s in
+  env_ready s = true ->
   (last_update s + (if idling s1 then c_idle_int c else c_upd c) <= now s)%Z ->
   snd (do_query c modes' (set_last_update (now s) s1)) = true ->
   let o := observe (periodic c modes' false s) in
   o_status o = Up /\ o_err o = false /\ o_online o = true /\ o_failed o = false /\ o_bygroup o = false /\
   o_core o = env_core s /\ o_dset o = env_dset s.
 Proof.
-  intros (Hs & Hf & Hev) Hn s modes' s1 Hdue Hok.
+  intros (Hs & Hf & Hev) Hn s modes' s1 Hrd Hdue Hok.
   pose proof (run_inv c modes evs Hs Hf Hev) as Hi. fold s in Hi.
   pose proof (run_inv2 c modes evs) as Hi2. fold s in Hi2.
-  pose proof (periodic_recovery c modes' s Hn Hs Hf Hi Hdue Hok) as Hsy.
-  pose proof (periodic_recovery_current c modes' s Hn Hs Hf Hi Hi2 Hdue Hok) as Hcu.
-  destruct (periodic_env c modes' false s) as [E1 E2].
+  pose proof (periodic_recovery c modes' s Hn Hs Hf Hi Hrd Hdue Hok) as Hsy.
+  pose proof (periodic_recovery_current c modes' s Hn Hs Hf Hi Hi2 Hrd Hdue Hok) as Hcu.
+  destruct (periodic_env c modes' false s) as (E1 & E2 & _).
   cbn zeta. rewrite <- E1, <- E2. apply synced_observed; assumption.
 Qed.
 
@@ -360,7 +376,7 @@ Lemma thm_resync_after_core_restart c modes evs ch :
   hist_ok c evs -> (0 < c_nsrc c)%nat ->
   let s0 := snd (run c modes evs) in
   let modes' := fst (run c modes evs) in
-  status s0 = Up ->
+  status s0 = Up -> env_ready s0 = true ->
   let s := restart ch s0 in
   let s1 := update_idle c s in
   (last_update s + (if idling s1 then c_idle_int c else c_upd c) <= now s)%Z ->
@@ -370,7 +386,7 @@ Lemma thm_resync_after_core_restart c modes evs ch :
   o_status o = Up /\ o_err o = false /\ o_online o = true /\ o_failed o = false /\ o_bygroup o = false /\
   o_core o = env_core s /\ o_dset o = env_dset s.
 Proof.
-  intros Hh Hn s0 modes' Hup s s1 Hdue Hok.
+  intros Hh Hn s0 modes' Hup Hrd s s1 Hdue Hok.
   assert (Hev' : hist_ok c (evs ++ [ERestart ch])).
   { destruct Hh as (A & B & C). repeat split; try assumption. apply Forall_app. split; [exact C|]. constructor; [exact I|constructor]. }
   assert (Hrun : run c modes (evs ++ [ERestart ch]) = (modes', s)).
@@ -384,4 +400,83 @@ Proof.
     apply restart_not_current. exact Hi2.
   - pose proof (thm_recovery_is_current c modes (evs ++ [ERestart ch]) Hev' Hn) as H.
     rewrite Hrun in H. cbn [fst snd] in H. apply H; assumption.
+Qed.
+
+(** *** the partner is not ready: the status query is answered with zero rows *)
+
+Definition down_not_ready (s : st) : Prop :=
+  status s = Down /\ lasterr s = ENotReady /\ has_data s = false.
+
+Lemma init_all_not_ready c modes s :
+  env_ready s = false ->
+  snd (do_query c modes (set_last_update (now s) s)) = true ->
+  snd (init_all c modes s) = false /\ down_not_ready (fst (init_all c modes s)).
+Proof.
+  intros Hr. unfold init_all.
+  pose proof (frame_env _ _ (do_query_frame c modes (set_last_update (now s) s))) as (_ & _ & Hfr).
+  destruct (do_query c modes (set_last_update (now s) s)) as [s1 ok]. cbn [fst snd] in *. intros ->.
+  assert (Hr1 : env_ready s1 = false) by (cbn in Hfr; congruence).
+  rewrite Hr1. cbn. unfold down_not_ready; cbn. repeat split; reflexivity.
+Qed.
+
+(** one tick whose first query is answered while the partner is not ready: the
+    first synchronisation ends down, and so does an update of a synchronised
+    backend (the status answer has another number of rows: restart required,
+    InitAllTables at once, entered from up / warning with the old objects) *)
+Lemma contact_not_ready c modes s :
+  (0 < c_nsrc c)%nat -> env_ready s = false ->
+  snd (do_query c modes s) = true ->
+  down_not_ready (after_update c modes (update_delta c modes s)).
+Proof.
+  intros Hn Hr Hok. unfold after_update, update_delta.
+  pose proof (do_query_ok_addr c modes s Hok) as Haddr.
+  pose proof (frame_env _ _ (do_query_frame c modes s)) as (_ & _ & Hfr).
+  destruct (do_query c modes s) as [s3 ok]. cbn [fst snd] in *. subst ok.
+  assert (Hr3 : env_ready s3 = false) by congruence.
+  rewrite Hr3. cbn [negb fst snd].
+  apply init_all_not_ready; [exact Hr3|].
+  assert (Hm : mode_of modes (addr (set_last_update (now s3) s3)) = MOk) by exact Haddr.
+  rewrite (do_query_ok_again c modes _ Hn Hm). reflexivity.
+Qed.
+
+Lemma periodic_not_ready c modes s :
+  (0 < c_nsrc c)%nat -> env_ready s = false ->
+  let s1 := update_idle c s in
+  (last_update s + (if idling s1 then c_idle_int c else c_upd c) <= now s)%Z ->
+  snd (do_query c modes (set_last_update (now s) s1)) = true ->
+  down_not_ready (periodic c modes false s).
+Proof.
+  intros Hn Hrd s1 Hdue Hok. unfold periodic. fold s1.
+  rewrite andb_false_r. cbn [andb negb].
+  assert (Hnow : now s1 = now s) by (unfold s1, update_idle; destruct (_ && _); reflexivity).
+  rewrite Hnow. destruct (now s <? last_update s + _)%Z eqn:Hlt; [apply Z.ltb_lt in Hlt; lia|].
+  set (s2 := set_last_update (now s) s1) in *.
+  assert (Hrd2 : env_ready s2 = false) by (unfold s2, s1, update_idle; destruct (_ && _); exact Hrd).
+  assert (Hinit : down_not_ready (fst (init_all c modes s2))).
+  { apply init_all_not_ready; [exact Hrd2|].
+    replace (set_last_update (now s2) s2) with s2; [exact Hok|]. unfold s2, set_last_update; cbn. rewrite Hnow. reflexivity. }
+  assert (Hdelta : down_not_ready (after_update c modes (update_delta c modes s2))).
+  { apply contact_not_ready; assumption. }
+  destruct (status s); destruct (has_data s); assumption.
+Qed.
+
+Lemma thm_partner_not_ready c modes evs :
+  (0 < c_nsrc c)%nat ->
+  let s := snd (run c modes evs) in
+  let modes' := fst (run c modes evs) in
+  env_ready s = false ->
+  (snd (do_query c modes' (set_last_update (now s) s)) = true ->
+     snd (init_all c modes' s) = false /\ down_not_ready (fst (init_all c modes' s))) /\
+  (let s1 := update_idle c s in
+   (last_update s + (if idling s1 then c_idle_int c else c_upd c) <= now s)%Z ->
+   snd (do_query c modes' (set_last_update (now s) s1)) = true ->
+   let o := observe (periodic c modes' false s) in
+   o_status o = Down /\ o_err o = true /\ o_online o = false /\ o_failed o = true /\ o_bygroup o = true /\
+   o_core o = 0%nat /\ o_dset o = 0%nat).
+Proof.
+  intros Hn s modes' Hrd. split.
+  - intros Hok. apply init_all_not_ready; assumption.
+  - intros s1 Hdue Hok.
+    destruct (periodic_not_ready c modes' s Hn Hrd Hdue Hok) as (A & B & C).
+    cbn zeta. unfold observe, is_online; cbn. rewrite A, B, C. cbn. repeat split; reflexivity.
 Qed.
